@@ -62,8 +62,12 @@ def load_confined():
 
 def parts(tier):
     q = tier == "quick"
-    return [dict(part="law", cfg="asan255", shards=5 if q else 8),
-            dict(part="mul", cfg="asan255", shards=11 if q else 16)]
+    # asan255: default ED_METHD (projective addition); asan255e: extended coordinates as the default system
+    # (ED_ADD == EXTND), where every point carries t and the default routines read it
+    return [dict(part="law", cfg="asan255", shards=4 if q else 8),
+            dict(part="mul", cfg="asan255", shards=7 if q else 16),
+            dict(part="law", cfg="asan255e", shards=2 if q else 6),
+            dict(part="mul", cfg="asan255e", shards=3 if q else 12)]
 
 
 # ===================================================================================== objects and model
@@ -230,6 +234,13 @@ class PointIO(object):
         self.ctx, self.R, self.E, self.cv, self.rng = ctx, R, E, cv, ctx.rng
         self.EQ, self.NE = R.K["RLC_EQ"], R.K["RLC_NE"]
         self.not_built = set()
+        # build with extended coordinates as the default system: ed_add/ed_dbl/ed_sub/ed_cmp/ed_on_curve read t of
+        # every operand whatever its tag, so every point a routine of that system returns must have T*Z = X*Y
+        self.ext = impl_of(R, "ed_add") == "ed_add_extnd"
+
+    # routines of the affine / plain projective systems: their results carry no t by definition
+    FOREIGN = ("ed_add_basic", "ed_sub_basic", "ed_dbl_basic", "ed_neg_basic", "ed_add_projc", "ed_sub_projc",
+               "ed_dbl_projc")
 
     def has(self, fn):
         if self.R.has(fn):
@@ -265,7 +276,7 @@ class PointIO(object):
         zi = pow(Z, -1, p)
         return (X * zi % p, Y * zi % p), co, True, raw
 
-    def expect(self, ptr, exp, affine=False, extended=False):
+    def expect(self, ptr, exp, affine=False, extended=False, impl=None):
         ctx, E = self.ctx, self.E
         got, co, ok, raw = self.get(ptr)
         good = ok and got == exp
@@ -280,6 +291,9 @@ class PointIO(object):
             ctx.check(Z == 1, ctx.cur_key + "|not-normalised", {"coord": co, "z": hx(Z)})
         if extended:
             ctx.check(co == E.EXTND and (T * Z - X * Y) % self.cv.p == 0, ctx.cur_key + "|t-inconsistent",
+                      {"coord": co, "raw": [hx(v) for v in raw]})
+        elif self.ext and impl not in self.FOREIGN:
+            ctx.check((T * Z - X * Y) % self.cv.p == 0, ctx.cur_key + "|t-invariant",
                       {"coord": co, "raw": [hx(v) for v in raw]})
         return True
 
@@ -389,7 +403,7 @@ class LawPart(PointIO):
                 E.fill(self.r_, R.poison)
                 out = self.p_ if alias else self.r_
                 if self.no_error(R.call(fn, out, self.p_)):
-                    self.expect(out, cv.C.neg(P))
+                    self.expect(out, cv.C.neg(P), impl=impl)
 
     def op_addsub(self, sub=False):
         ctx, R, E, cv, rng = self.ctx, self.R, self.E, self.cv, self.rng
@@ -417,7 +431,7 @@ class LawPart(PointIO):
                 out = {1: self.p_, 2: self.q_}.get(alias, self.r_)
                 rawp, rawq = E.raw(self.p_), E.raw(self.q_)
                 if self.no_error(R.call(fn, out, self.p_, pq)):
-                    self.expect(out, exp, extended=(native == "E" and not (sub and alias == 3)))
+                    self.expect(out, exp, extended=(native == "E" and not (sub and alias == 3)), impl=impl)
                     if out != self.p_:
                         ctx.check(E.raw(self.p_) == rawp, ctx.cur_key + "|input-modified")
                     if out != self.q_ and alias != 3:
@@ -441,7 +455,7 @@ class LawPart(PointIO):
                 E.fill(self.r_, R.poison)
                 out = self.p_ if alias else self.r_
                 if self.no_error(R.call(fn, out, self.p_)):
-                    self.expect(out, cv.C.dbl(P), extended=(native == "E"))
+                    self.expect(out, cv.C.dbl(P), extended=(native == "E"), impl=impl)
 
     def op_norm(self):
         ctx, R, E, cv, rng = self.ctx, self.R, self.E, self.cv, self.rng
@@ -663,7 +677,8 @@ class LawPart(PointIO):
                     E.fill(self.r_, R.poison)
                     if self.no_error(R.call("ed_copy", self.r_, self.p_)):
                         a, b = E.get(self.r_), E.get(self.p_)
-                        ctx.check(a[:3] == b[:3] and a[4] == b[4], ctx.cur_key + "|value")
+                        ctx.check(a[:3] == b[:3] and a[4] == b[4] and (not self.ext or a[3] == b[3]),
+                                  ctx.cur_key + "|value")
         elif c == 3:
             if rng.random() < 0.15:
                 with Case(ctx, "ed_rand|", {}, nontrivial=False) as go:
@@ -727,6 +742,8 @@ class MulPart(PointIO):
     def __init__(self, ctx, R, E, cv):
         PointIO.__init__(self, ctx, R, E, cv)
         self.p_, self.q_, self.r_ = E.new(), E.new(), E.new()
+        self.w_, self.t2_ = E.new(), E.new()
+        self.buf_ = R.mem(1 + 2 * R.K["RLC_FP_BYTES"], 0)
         self.k, self.m = R.bn_new(), R.bn_new()
         self.confined = load_confined()
         self.stepped = 0
@@ -835,7 +852,58 @@ class MulPart(PointIO):
         if res.caught:
             ctx.check(not in_range, ctx.cur_key + "|unexpected-error", {"err": res.err})
             return
-        self.expect(out, exp, affine=True)
+        if self.expect(out, exp, affine=True):
+            self.consequences(out, exp)
+
+    def consequences(self, res, exp):
+        """what a caller sees next: the result object as it stands goes into the default addition, subtraction,
+        doubling, comparison, validity test and serialisation; each is compared with the model"""
+        ctx, R, E, cv = self.ctx, self.R, self.E, self.cv
+        base = ctx.cur_key
+        W = cv.sub(self.pool[self.rng.randrange(len(self.pool))])
+        C = cv.C
+
+        def step(what, fn, *a):
+            r = R.call(fn, *a)
+            if not ctx.check(not r.caught, base + "|then-" + what + "|unexpected-error", {"err": r.err}):
+                return None
+            return r
+
+        def point(what, want):
+            got, co, ok, raw = self.get(self.t2_)
+            good = ok and got == want
+            ctx.check(good, base + "|then-" + what + "|value",
+                      None if good else {"got": pshow(got), "exp": pshow(want), "operand": pshow(exp),
+                                         "operand_raw": [hx(v) for v in E.get(res)[:4]]})
+        self.put(self.w_, W, self.rng.choice(["B", "P", "E"] if self.ext else ["B", "P"]))
+        E.fill(self.t2_, R.poison)
+        if step("add", "ed_add", self.t2_, res, self.w_):
+            point("add", C.add(exp, W))
+        E.fill(self.t2_, R.poison)
+        if step("add-rev", "ed_add", self.t2_, self.w_, res):
+            point("add-rev", C.add(W, exp))
+        E.fill(self.t2_, R.poison)
+        if step("sub", "ed_sub", self.t2_, self.w_, res):
+            point("sub", C.sub(W, exp))
+        E.fill(self.t2_, R.poison)
+        if step("dbl", "ed_dbl", self.t2_, res):
+            point("dbl", C.dbl(exp))
+        # comparison with a fresh, correct encoding of the expected point and of another point
+        self.put(self.w_, exp, self.rng.choice(["B", "P", "E"] if self.ext else ["B", "P"]))
+        r = step("cmp", "ed_cmp", res, self.w_)
+        if r:
+            ctx.check(r.i == self.EQ, base + "|then-cmp|value", {"got": r.i, "exp": self.EQ})
+        r = step("on_curve", "ed_on_curve", res)
+        if r:
+            ctx.check(r.i == 1, base + "|then-on_curve|value", {"got": r.i, "operand_raw": [hx(v) for v in E.get(res)[:4]]})
+        if exp != C.O:
+            fb = R.K["RLC_FP_BYTES"]
+            ln = 1 + 2 * fb
+            ctypes.memset(self.buf_, R.poison, ln)
+            if step("write_bin", "ed_write_bin", self.buf_, ln, res, 0):
+                bs = R.get(self.buf_, ln)
+                want = b"\x04" + exp[1].to_bytes(fb, "big") + exp[0].to_bytes(fb, "big")
+                ctx.check(bs == want, base + "|then-write_bin|value", {"got": bs.hex(), "exp": want.hex()})
 
     # ------------------------------------------------------------------ single multiplications
     def mul_case(self, fn, d, k, alias=None):
@@ -1150,17 +1218,18 @@ def run(ctx, part):
             ctx.check(not r.caught and r.i == R.K["RLC_OK"] and R.L.ed_param_get() == R.E.get("CURVE_ED25519", 1), None,
                       {"ret": r.i})
     cv = Cv(R, E, ctx.rng)
+    ctx.note("default_coordinates_" + ctx.cfg, impl_of(R, "ed_add"))
     ctx.note("curve", {"id": "CURVE_ED25519", "p": hx(cv.p), "a": "-1", "d": hx(cv.d), "n": hx(cv.n), "h": cv.h})
     ctx.note("dispatch", {k: impl_of(R, k) for k in ("ed_neg", "ed_add", "ed_sub", "ed_dbl", "ed_mul", "ed_mul_pre",
                                                       "ed_mul_fix", "ed_mul_sim")})
     if part == "law":
         w = LawPart(ctx, R, E, cv)
         w.has("ed_projc_to_extnd")      # only declared and built when ED_ADD == EXTND
-        w.run(ctx.n(3000, 50000))
+        w.run(ctx.n(3000, 50000) if not w.ext else ctx.n(1500, 30000))
     else:
         w = MulPart(ctx, R, E, cv)
         w.sacrificial()
-        w.run(ctx.n(700, 14000))
+        w.run(ctx.n(700, 14000) if not w.ext else ctx.n(300, 8000))
         ctx.note("confined_known_fatal", sorted(w.confined))
         ctx.add("cases_stepped_around_confined_known_fatal", w.stepped)
     ctx.note("functions_not_built", sorted(w.not_built))
